@@ -38,7 +38,7 @@ type gctx struct {
 	inNamed  int // depth of enclosing named loops
 }
 
-var litAlphabet = []string{"a", "b", "ab", "ba", "aa", "c", "A", "0", " ", "\n", "_", "abc", "-", "7"}
+var litAlphabet = []string{"a", "b", "ab", "ba", "aa", "c", "A", "0", " ", "\n", "_", "abc", "-", "7", "\u00e9", "\u00c9a"}
 var singleAlphabet = []string{"a", "b", "c", "A", "0", " ", "\n", "_", "-", "7", "B"}
 var classNames = []string{"any", "whitespace", "digit", "upper", "lower", "letter"}
 var anchorNames = []string{"file start", "file end", "line start", "line end", "word start", "word end"}
